@@ -190,7 +190,7 @@ TEof == /\ IsEvent("Eof")
 (* End: both endpoints have returned; their reports must have been logged *)
 TEnd == /\ IsEvent("End") /\ (Ev.crc = -9 \/ (cret = Ev.crc /\ sret = Ev.src))
         /\ UNCHANGED vars /\ UNCHANGED <<cret, sret, ckeys, skeys, cpend, spend, cshut, sshut, cav, sav, cfin, sfin, ceof, seof, wpos, wmax, rpos>>
-TIgnored == /\ (IsEvent("Draw") \/ IsEvent("InitFail"))
+TIgnored == /\ (IsEvent("Draw") \/ IsEvent("InitFail") \/ IsEvent("Sent"))
             /\ UNCHANGED vars /\ UNCHANGED <<cret, sret, ckeys, skeys, cpend, spend, cshut, sshut, cav, sav, cfin, sfin, ceof, seof, wpos, wmax, rpos>>
 TReset == IsEvent("Reset") /\ BlankNext
 
